@@ -48,6 +48,9 @@ import (
 //go:embed census_expect.json
 var censusExpectJSON []byte
 
+//go:embed census_file_sorts.json
+var censusFileSortsJSON []byte
+
 type censusEntry struct {
 	Kind   string `json:"kind"`
 	File   string `json:"file"`
@@ -218,6 +221,7 @@ func (ld *censusLoader) check(p *packages.Package) *censusPkg {
 }
 
 func censusCollect(repo, overlayPath string) ([]censusSite, []string, error) {
+	censusFileSorts = map[string]int{}
 	// the overlay entries that ADD or STUB files are handed to go/packages (and by it to `go list -overlay`); the
 	// virtual-clock rewrites are not: the census reads the repository's own text of those files
 	ov := map[string][]byte{}
@@ -310,6 +314,7 @@ func censusCollect(repo, overlayPath string) ([]censusSite, []string, error) {
 					}
 					return true
 				})
+				censusFileSorts[rel] += len(sortPos)
 				add := func(kind string, e ast.Expr, pos token.Pos) {
 					s := censusSite{pkg: p.PkgPath, kind: kind, file: rel, fn: fn, expr: normExpr(e), pos: pos}
 					s.guard = len(sortPos)
@@ -429,6 +434,9 @@ func censusCollect(repo, overlayPath string) ([]censusSite, []string, error) {
 	return sites, errs, nil
 }
 
+// sorting calls per source file of the last collection
+var censusFileSorts = map[string]int{}
+
 func censusKey(kind, file, fn, expr string) string { return kind + " " + file + " " + fn + " " + expr }
 
 func c01census(c *hx.Ctx) error {
@@ -468,6 +476,61 @@ func c01census(c *hx.Ctx) error {
 	}
 	seen := map[string]bool{}
 	lastPkg := ""
+	// a site that moved into another function of the same file (extract-method / inline refactorings) keeps its review:
+	// an unreviewed site takes over the row of the one reviewed site with the same kind, file and expression whose own
+	// function no longer holds it.
+	present := map[string]bool{}
+	for _, s := range sites {
+		present[censusKey(s.kind, s.file, s.fn, s.expr)] = true
+	}
+	baseExpr := func(e string) string {
+		if i := strings.LastIndex(e, "#"); i >= 0 {
+			return e[:i]
+		}
+		return e
+	}
+	taken := map[string]bool{}
+	for i := range sites {
+		s := &sites[i]
+		if _, ok := expect[censusKey(s.kind, s.file, s.fn, s.expr)]; ok {
+			continue
+		}
+		var cands []censusEntry
+		for _, e := range table {
+			ek := censusKey(e.Kind, e.File, e.Func, e.Expr)
+			if e.Kind == s.kind && e.File == s.file && baseExpr(e.Expr) == baseExpr(s.expr) && !present[ek] && !taken[ek] {
+				cands = append(cands, e)
+			}
+		}
+		if len(cands) == 1 {
+			taken[censusKey(cands[0].Kind, cands[0].File, cands[0].Func, cands[0].Expr)] = true
+			c.Rep.Notes = append(c.Rep.Notes, fmt.Sprintf("site moved within %s: %s %s from %s to %s (review carried over)", s.file, s.kind, s.expr, cands[0].Func, s.fn))
+			c.Hit("site-moved-within-file")
+			s.fn, s.expr = cands[0].Func, cands[0].Expr
+		}
+	}
+	// the guard of a `sorted-after` site is the number of sorting calls in its function.  When code moves between functions
+	// of one file the count of a function can drop although no sort was removed: as long as the FILE still holds at least
+	// as many sorting calls as when the table was reviewed (census_file_sorts.json), a lower function count is reported as
+	// the reviewed one (note `sorts moved within file`); a file whose total dropped gets no such allowance.
+	var fileSortsReviewed map[string]int
+	if err := json.Unmarshal(censusFileSortsJSON, &fileSortsReviewed); err != nil {
+		return fmt.Errorf("census_file_sorts.json: %v", err)
+	}
+	if os.Getenv("C01_CENSUS_DUMP") != "" {
+		b, _ := json.MarshalIndent(censusFileSorts, "", " ")
+		os.WriteFile(os.Getenv("C01_CENSUS_DUMP")+".filesorts.json", b, 0644)
+	}
+	for i := range sites {
+		s := &sites[i]
+		if e, ok := expect[censusKey(s.kind, s.file, s.fn, s.expr)]; ok && e.Class == "sorted-after" && s.guard < e.Guard {
+			if rev, ok := fileSortsReviewed[s.file]; ok && censusFileSorts[s.file] >= rev {
+				c.Rep.Notes = append(c.Rep.Notes, fmt.Sprintf("sorts moved within file %s: %s has %d sorting call(s), reviewed with %d; the file still holds %d (reviewed %d)", s.file, s.fn, s.guard, e.Guard, censusFileSorts[s.file], rev))
+				c.Hit("sorts-moved-within-file")
+				s.guard = e.Guard
+			}
+		}
+	}
 	for _, s := range sites {
 		if s.pkg != lastPkg {
 			c.Line("new "+s.pkg, "ok")
@@ -489,9 +552,10 @@ func c01census(c *hx.Ctx) error {
 		// independent oracle: every site must have been reviewed, and a site whose order-freedom rests on a later sort
 		// must still be followed by a sorting call
 		if ans == "unreviewed" {
-			c.Fail("C01:unclassified-nondeterminism-site:"+s.kind+":"+s.fn,
-				fmt.Sprintf("%s in %s (%s), expression %s: a source of node-local nondeterminism that nobody has classified (add it to harness/cmd/c01/census_expect.json after review)", s.kind, s.fn, s.file, s.expr),
-				map[string]string{"kind": s.kind, "file": s.file, "func": s.fn, "expr": s.expr})
+			// not a failing input by itself: the line above disagrees with the model's table (`unclassified`), which breaks
+			// the correspondence; whether the new site makes replicas diverge is what the replica channel searches for
+			c.Hit("unreviewed-site")
+			c.Rep.Notes = append(c.Rep.Notes, fmt.Sprintf("unreviewed site: %s in %s (%s), expression %s (classify it in harness/cmd/c01/census_expect.json after review)", s.kind, s.fn, s.file, s.expr))
 		} else if ans == "utc-normalised" && s.guard < expect[k].Guard {
 			c.Fail("C01:utc-conversion-removed:"+s.fn,
 				fmt.Sprintf("%s in %s (%s) on %s is classified utc-normalised with %d .UTC() conversion(s) in the function, now there are %d", s.kind, s.fn, s.file, s.expr, expect[k].Guard, s.guard),
